@@ -5,13 +5,13 @@
 (* interleaved at every position.                                          *)
 EXTENDS Bucket
 
-CONSTANTS Vals, Revs, MaxOps, CheckVH, Collide, MaxRestarts, Mutants, WithGC, FileMax, BodyMaxBlk
+CONSTANTS Vals, Revs, MaxOps, CheckVH, Collide, MaxRestarts, Mutants, WithGC, FileMax, BodyMaxBlk, WithCrash, SplitCap
 
 VARIABLES nops, nrestart
 
 Conf0 == [hashOf |-> [k \in Keys |-> IF Collide /\ k \in {"b", "c"} THEN "hb" ELSE "h" \o k],
           rank   |-> [k \in Keys |-> CASE k = "a" -> 1 [] k = "b" -> 2 [] OTHER -> 3],
-          fileMax |-> FileMax, splitCap |-> 2, checkVHash |-> CheckVH, dumpEager |-> FALSE,
+          fileMax |-> FileMax, splitCap |-> SplitCap, checkVHash |-> CheckVH, dumpEager |-> FALSE,
           bodyMaxBlk |-> BodyMaxBlk, mut |-> Mutants]
 NBlk(v) == IF v = 3 THEN 2 ELSE 1
 VhOf(v) == IF v = 2 THEN 11 ELSE 10 + v      \* values 1 and 2 share a value hash
@@ -41,7 +41,9 @@ Restart ==
   /\ \/ Open /\ nrestart' = nrestart + 1
      \/ (nrestart' = nrestart /\ (RmTreeDumps \/ \E c \in Chunks, j \in 0..2 : RmHint(c, j)))
 
-MCNext == Start \/ StartFree \/ (Continue /\ UNCHANGED <<nops, nrestart>>) \/ Restart
+Kill == WithCrash /\ nrestart < MaxRestarts /\ (Crash \/ CrashTornFlush \/ CrashTornCopy) /\ UNCHANGED <<nops, nrestart>>
+
+MCNext == Start \/ StartFree \/ (Continue /\ UNCHANGED <<nops, nrestart>>) \/ Restart \/ Kill
 
 MCSpec == MCInit /\ [][MCNext]_<<vars, nops, nrestart>>
 
@@ -50,4 +52,6 @@ Bound == nrestart <= MaxRestarts /\ head < MaxChunk
 \* after a clean restart reads agree with the reference map (C02): value, flags, liveness
 \* always; version for live keys
 C02_Restart == (up /\ Quiet) => \A k \in Keys : ~Colliding(k) => Agrees(k, SpecRead(k), ref[k], 1)
+\* debugging aids (not properties)
+DbgHintAhead == up \/ \A c \in Chunks : \A i \in 1..Len(disk.hintf[c]) : disk.hintf[c][i] = NoFile \/ disk.hintf[c][i].datasize <= Len(disk.data[c])
 =============================================================================
